@@ -88,6 +88,15 @@ impl Graph {
     }
 }
 
+#[cfg(feature = "verif")]
+impl Graph {
+    /// Verification hook: access the blocks, e.g. to probe for quiescence
+    /// after `run()` returned.
+    pub fn verif_blocks_mut(&mut self) -> &mut Vec<Box<dyn Block>> {
+        &mut self.blocks
+    }
+}
+
 #[must_use]
 pub(crate) fn get_cpu_time() -> std::time::Duration {
     use libc::{CLOCK_PROCESS_CPUTIME_ID, clock_gettime, timespec};
